@@ -56,7 +56,9 @@ theorem alwaysVerdict_not_ok (obs : Obs α) (date : Date) (v : Instant) :
   simp only [bind, Except.bind]
   split
   · simp
-  · split <;> simp [throw, throwThe, MonadExceptOf.throw]
+  · split
+    · simp
+    · split <;> simp [throw, throwThe, MonadExceptOf.throw]
 
 /-- dawn: any numeric type, any observer, date, depression, zone -/
 theorem dawn_on_date (obs : Obs α) (d : Date) (dep : α) (tz : TZ) (t : Instant)
